@@ -812,6 +812,313 @@ func init() {
 			fmt.Fprintf(&b, "Definition cfg_resolve_explicit_first : bool := %v.\n", explicitFirst)
 		}
 
+		// ---- keys without a flag: does the value of the file reach the analysis? ----------------------
+		// (facts, not requirements: a missing piece is emitted as `false`, the model then describes the code without it)
+		b.WriteString("\n(* keys of the file that have no flag of analyze: the wiring between the loaded file and the analysis *)\n")
+		mentions := func(e ast.Expr, sel string) bool {
+			hit := false
+			if e != nil {
+				ast.Inspect(e, func(nd ast.Node) bool {
+					if ex, ok := nd.(ast.Expr); ok && selName(ex) == sel {
+						hit = true
+					}
+					return !hit
+				})
+			}
+			return hit
+		}
+		assignsTo := func(fd *ast.FuncDecl, lhs string) bool {
+			hit := false
+			if fd != nil {
+				ast.Inspect(fd, func(nd ast.Node) bool {
+					if as, ok := nd.(*ast.AssignStmt); ok {
+						for _, l := range as.Lhs {
+							if selName(l) == lhs {
+								hit = true
+							}
+						}
+					}
+					return true
+				})
+			}
+			return hit
+		}
+		{
+			cc := findFunc(svc, "clone_config_loader.go", "CloneConfigurationLoader", "cloneConfigToCloneRequest")
+			mcf := findFunc(appp, "clone_usecase.go", "CloneUseCase", "mergeConfiguration")
+			var ccf, areq map[string]ast.Expr
+			if cc != nil {
+				ccf = compositeFields(cc, "domain.CloneRequest")
+			}
+			areq = compositeFields(ct, "domain.CloneRequest")
+			startsFromConfig := false
+			if mcf != nil {
+				ast.Inspect(mcf, func(nd ast.Node) bool {
+					if as, ok := nd.(*ast.AssignStmt); ok && as.Tok == token.DEFINE && len(as.Lhs) == 1 && len(as.Rhs) == 1 &&
+						selName(as.Lhs[0]) == "merged" && selName(as.Rhs[0]) == "configReq" {
+						startsFromConfig = true
+					}
+					return true
+				})
+			}
+			// [clones] skip_docstrings: copied from the loaded file, the merge starts from the file's request and never replaces it
+			skip := ccf != nil && mentions(ccf["SkipDocstrings"], "cloneCfg.Analysis.SkipDocstrings") && startsFromConfig &&
+				!assignsTo(mcf, "merged.SkipDocstrings")
+			fmt.Fprintf(&b, "Definition clones_skip_docstrings_uses_file : bool := %v.\n", skip)
+			// [clones] max_edit_distance: copied from the loaded file; analyze's request carries DefaultCloneRequest()'s value, which
+			// the merge (`requestReq.MaxEditDistance != defaultReq.MaxEditDistance`) does not count as given
+			defaultReqIsDefault := false
+			ast.Inspect(ct, func(nd ast.Node) bool {
+				if as, ok := nd.(*ast.AssignStmt); ok && len(as.Lhs) == 1 && selName(as.Lhs[0]) == "defaultReq" && len(as.Rhs) == 1 {
+					if ce, ok := as.Rhs[0].(*ast.CallExpr); ok && selName(ce.Fun) == "domain.DefaultCloneRequest" {
+						defaultReqIsDefault = true
+					}
+				}
+				return true
+			})
+			mergeTest := false
+			if mcf != nil {
+				hits := cmpsOn(mcf, "requestReq.MaxEditDistance")
+				mergeTest = len(hits) == 1 && hits[0].op == token.NEQ && selName(hits[0].rhs) == "defaultReq.MaxEditDistance"
+			}
+			maxd := ccf != nil && selName(ccf["MaxEditDistance"]) == "cloneCfg.Analysis.MaxEditDistance" && startsFromConfig && mergeTest &&
+				areq != nil && areq["MaxEditDistance"] != nil && selName(areq["MaxEditDistance"]) == "defaultReq.MaxEditDistance" && defaultReqIsDefault
+			fmt.Fprintf(&b, "Definition clones_max_edit_distance_uses_file : bool := %v.\n", maxd)
+		}
+		{
+			// [output] format: generateOutput, without a format flag, takes the formats analyze can write from cfg.Output.Format
+			gout := findFunc(cmd, "analyze.go", "AnalyzeCommand", "generateOutput")
+			var formats []string
+			guarded := false
+			if gout != nil {
+				ast.Inspect(gout, func(nd ast.Node) bool {
+					is, ok := nd.(*ast.IfStmt)
+					if !ok {
+						return true
+					}
+					cond := src(cmd, is.Cond)
+					if !(strings.Contains(cond, "!c.html") && strings.Contains(cond, "!c.json") && strings.Contains(cond, "!c.csv") && strings.Contains(cond, "!c.yaml")) ||
+						strings.Contains(cond, "||") {
+						return true
+					}
+					ast.Inspect(is.Body, func(n2 ast.Node) bool {
+						sw, ok := n2.(*ast.SwitchStmt)
+						if !ok || selName(sw.Tag) != "cfg.Output.Format" {
+							return true
+						}
+						for _, st := range sw.Body.List {
+							cc := st.(*ast.CaseClause)
+							sets := false
+							for _, bs := range cc.Body {
+								if as, ok := bs.(*ast.AssignStmt); ok && len(as.Lhs) == 2 && len(as.Rhs) == 2 && selName(as.Lhs[0]) == "format" &&
+									selName(as.Lhs[1]) == "extension" && selName(as.Rhs[0]) == "cfg.Output.Format" && selName(as.Rhs[1]) == "cfg.Output.Format" {
+									sets = true
+								}
+							}
+							if sets {
+								for _, ce := range cc.List {
+									if v, ok := r.str(cmd, ce, 0); ok {
+										formats = append(formats, v)
+									}
+								}
+							}
+						}
+						guarded = true
+						return false
+					})
+					return true
+				})
+			}
+			has := func(f string) bool {
+				for _, x := range formats {
+					if x == f {
+						return true
+					}
+				}
+				return false
+			}
+			fmt.Fprintf(&b, "Definition analyze_output_format_uses_file : bool := %v.  (* formats taken from the file: %s *)\n",
+				guarded && len(formats) == 4 && has("html") && has("json") && has("csv") && has("yaml"), strings.Join(formats, " "))
+		}
+		{
+			// [dead_code] detect_*: convertToFunctionDeadCode drops the findings whose reason detectionEnabled switches off
+			de := findFunc(svc, "dead_code_service.go", "", "detectionEnabled")
+			cv := findFunc(svc, "dead_code_service.go", "DeadCodeServiceImpl", "convertToFunctionDeadCode")
+			want := map[string]string{"ReasonUnreachableAfterReturn": "req.DetectAfterReturn", "ReasonUnreachableAfterBreak": "req.DetectAfterBreak",
+				"ReasonUnreachableAfterContinue": "req.DetectAfterContinue", "ReasonUnreachableAfterRaise": "req.DetectAfterRaise",
+				"ReasonUnreachableBranch": "req.DetectUnreachableBranches"}
+			table := de != nil
+			nCases := 0
+			defaultKeeps := false
+			if de != nil {
+				ast.Inspect(de, func(nd ast.Node) bool {
+					sw, ok := nd.(*ast.SwitchStmt)
+					if !ok || selName(sw.Tag) != "reason" {
+						return true
+					}
+					for _, st := range sw.Body.List {
+						cc := st.(*ast.CaseClause)
+						if len(cc.Body) != 1 {
+							table = false
+							continue
+						}
+						rs, ok := cc.Body[0].(*ast.ReturnStmt)
+						if !ok || len(rs.Results) != 1 {
+							table = false
+							continue
+						}
+						if cc.List == nil {
+							defaultKeeps = selName(rs.Results[0]) == "true"
+							continue
+						}
+						for _, ce := range cc.List {
+							field, known := want[strings.TrimPrefix(selName(ce), "analyzer.")]
+							call, isCall := rs.Results[0].(*ast.CallExpr)
+							if !known || !isCall || selName(call.Fun) != "domain.BoolValue" || len(call.Args) != 2 || selName(call.Args[0]) != field ||
+								selName(call.Args[1]) != "true" {
+								table = false
+							}
+							nCases++
+						}
+					}
+					return false
+				})
+			}
+			applied := false
+			if cv != nil {
+				ast.Inspect(cv, func(nd ast.Node) bool {
+					is, ok := nd.(*ast.IfStmt)
+					if !ok {
+						return true
+					}
+					u, ok := is.Cond.(*ast.UnaryExpr)
+					if !ok || u.Op != token.NOT {
+						return true
+					}
+					ce, ok := u.X.(*ast.CallExpr)
+					if !ok || selName(ce.Fun) != "detectionEnabled" || len(ce.Args) != 2 || selName(ce.Args[0]) != "analyzerFinding.Reason" || selName(ce.Args[1]) != "req" {
+						return true
+					}
+					if len(is.Body.List) == 1 {
+						if br, ok := is.Body.List[0].(*ast.BranchStmt); ok && br.Tok == token.CONTINUE {
+							applied = true
+						}
+					}
+					return true
+				})
+			}
+			fmt.Fprintf(&b, "Definition svc_dead_detect_switches_applied : bool := %v.\n", table && nCases == len(want) && defaultKeeps && applied)
+			if de != nil {
+				recordDigest(svc, "dead_code_service.go", "", "detectionEnabled")
+			}
+		}
+		{
+			// [dead_code] enabled: Execute skips dead code detection when the file says enabled = false, unless the analyses were
+			// named explicitly (--select sets ExplicitSelection in createUseCaseConfig)
+			ex := findFunc(appp, "analyze_usecase.go", "AnalyzeUseCase", "Execute")
+			dd := findFunc(appp, "analyze_usecase.go", "AnalyzeUseCase", "deadCodeDisabledInConfig")
+			guarded := false
+			if ex != nil {
+				ast.Inspect(ex, func(nd ast.Node) bool {
+					is, ok := nd.(*ast.IfStmt)
+					if !ok {
+						return true
+					}
+					be, ok := is.Cond.(*ast.BinaryExpr)
+					if !ok || be.Op != token.LAND {
+						return true
+					}
+					u, ok1 := be.X.(*ast.UnaryExpr)
+					ce, ok2 := be.Y.(*ast.CallExpr)
+					if !ok1 || !ok2 || u.Op != token.NOT || selName(u.X) != "useCaseCfg.ExplicitSelection" || selName(ce.Fun) != "uc.deadCodeDisabledInConfig" ||
+						len(ce.Args) != 1 || selName(ce.Args[0]) != "useCaseCfg.ConfigFile" {
+						return true
+					}
+					if len(is.Body.List) == 1 && is.Else == nil {
+						if as, ok := is.Body.List[0].(*ast.AssignStmt); ok && len(as.Lhs) == 1 && selName(as.Lhs[0]) == "useCaseCfg.SkipDeadCode" &&
+							len(as.Rhs) == 1 && selName(as.Rhs[0]) == "true" {
+							guarded = true
+						}
+					}
+					return true
+				})
+			}
+			readsKey := false
+			if dd != nil {
+				ast.Inspect(dd, func(nd ast.Node) bool {
+					if u, ok := nd.(*ast.UnaryExpr); ok && u.Op == token.NOT && selName(u.X) == "cfg.DeadCode.Enabled" {
+						readsKey = true
+					}
+					return true
+				})
+			}
+			// createUseCaseConfig: ExplicitSelection = true exactly in the --select branch
+			selectSets := false
+			ast.Inspect(cu, func(nd ast.Node) bool {
+				is, ok := nd.(*ast.IfStmt)
+				if !ok || !strings.Contains(src(cmd, is.Cond), "c.selectAnalyses") {
+					return true
+				}
+				inThen, inElse := false, false
+				find := func(n ast.Node, hit *bool) {
+					if n == nil {
+						return
+					}
+					ast.Inspect(n, func(n2 ast.Node) bool {
+						if as, ok := n2.(*ast.AssignStmt); ok && len(as.Lhs) == 1 && selName(as.Lhs[0]) == "config.ExplicitSelection" {
+							*hit = true
+						}
+						return true
+					})
+				}
+				find(is.Body, &inThen)
+				if is.Else != nil {
+					find(is.Else, &inElse)
+				}
+				selectSets = inThen && !inElse
+				return false
+			})
+			fmt.Fprintf(&b, "Definition analyze_dead_code_enabled_uses_file : bool := %v.\n", guarded && readsKey && selectSets)
+			if dd != nil {
+				recordDigest(appp, "analyze_usecase.go", "AnalyzeUseCase", "deadCodeDisabledInConfig")
+			}
+		}
+		{
+			// the include / exclude patterns analyze falls back to without a configuration file (getFilePatterns) and the ones
+			// a configuration file that does not set them comes with (DefaultPyscnConfig)
+			gf := findFunc(appp, "analyze_usecase.go", "AnalyzeUseCase", "getFilePatterns")
+			strList := func(e ast.Expr) ([]string, bool) {
+				cl, ok := e.(*ast.CompositeLit)
+				if !ok {
+					return nil, false
+				}
+				var res []string
+				for _, el := range cl.Elts {
+					v, ok := r.str(cfg, el, 0)
+					if !ok {
+						return nil, false
+					}
+					res = append(res, v)
+				}
+				return res, true
+			}
+			for _, pr := range []struct{ local, field, name string }{{"defaultInclude", "AnalysisIncludePatterns", "include"}, {"defaultExclude", "AnalysisExcludePatterns", "exclude"}} {
+				var fallback, dflt []string
+				ok1, ok2 := false, false
+				if gf != nil {
+					fallback, ok1 = stringSliceAssigned(gf, pr.local)
+				}
+				if dpf != nil && dpf[pr.field] != nil {
+					dflt, ok2 = strList(dpf[pr.field])
+				}
+				if !ok1 || !ok2 {
+					fail("gen_config: getFilePatterns %s / DefaultPyscnConfig.%s are not string lists", pr.local, pr.field)
+				}
+				fmt.Fprintf(&b, "Definition analyze_fallback_%s : list (list N) :=\n  %s.\n", pr.name, coqStrList(fallback))
+				fmt.Fprintf(&b, "Definition cfg_default_Analysis_%s : list (list N) :=\n  %s.\n", pr.name, coqStrList(dflt))
+			}
+		}
+
 		writeGen("ConfigConst.v", b.String())
 
 		recordDigest(cmd, "analyze.go", "AnalyzeCommand", "CreateCobraCommand")
